@@ -78,6 +78,8 @@ Inductive op :=
 | OWithoutSuffixChI (ch max : N) | OWithoutPrefixChI (ch max : N)
 | OWithWord (idx : N) (a : sarg) (sep : list N)
 | OIndented (n ch : N)
+| OPlusCh (ch : N) | OChPlus (ch : N) | OCPlus (lit : list N)     (* String + char, char + String, const char-ptr + String *)
+| OMinusPS (a : sarg) | OMinusPCh (ch : N)                     (* String - String, String - char *)
 | OEscaped (seps : list N) (esc : N)
 (* s = <producer>(...) : the result is move-assigned to the subject *)
 | OAssign (o : op).
@@ -544,6 +546,14 @@ Definition produce (s : str1) (o : op) : option out1 :=
       Some (R1Str (ctor_sub me (lenN (abs s) - lenN (strip_ch_prefix_nc (abs s) ch max)) NOLIMIT))
   | OWithWord idx a sep => Some (R1Str (with_word s idx (sa a) sep))
   | OIndented n ch => Some (R1Str (indented1 s n ch))
+  | OPlusCh ch =>
+      Some (R1Str (append_ch (snd (set_from (snd (prealloc empty1 (u32 (slen s + 1)))) (Some me) 0 NOLIMIT)) ch))
+  | OChPlus ch =>
+      Some (R1Str (append_s (snd (set_cstr (snd (prealloc empty1 (u32 (slen s + 1)))) (CLit [ch]) 1)) (Some me)))
+  | OCPlus lit =>
+      Some (R1Str (append_s (snd (set_cstr (snd (prealloc empty1 (u32 (lenN lit + slen s)))) (CLit lit) NOLIMIT)) (Some me)))
+  | OMinusPS a => Some (R1Str (minus_s (ctor_copy me) (Some (sa a))))
+  | OMinusPCh ch => Some (R1Str (minus_ch (ctor_copy me) ch))
   | OEscaped seps esc => Some (R1Str (escaped1 s seps esc))
   | _ => None
   end.
@@ -692,6 +702,11 @@ Definition produce0 (l : list N) (o : op) : option out0 :=
   | OWithoutPrefixChI ch max => Some (R0Str (strip_ch_prefix_nc l ch max))
   | OWithWord idx a sep => Some (R0Str (l0_with_word l idx (sb a) sep))
   | OIndented n ch => Some (R0Str (l0_indented l n ch))
+  | OPlusCh ch => Some (R0Str (l ++ [ch]))
+  | OChPlus ch => Some (R0Str (cstr [ch] ++ l))
+  | OCPlus lit => Some (R0Str (lit ++ l))
+  | OMinusPS a => Some (R0Str (l0_minus l (sb a)))
+  | OMinusPCh ch => Some (R0Str (l0_minus_ch l ch))
   | OEscaped seps esc => Some (R0Str (l0_escaped l seps esc))
   | _ => None
   end.
@@ -798,6 +813,7 @@ Fixpoint dealias (l : list N) (o : op) : op :=
   | OWithoutSuffixSI a m => OWithoutSuffixSI (S a) m | OWithoutPrefixSI a m => OWithoutPrefixSI (S a) m
   | OWithWord i a sep => OWithWord i (S a) sep
   | OGetDistance a m => OGetDistance (S a) m
+  | OMinusPS a => OMinusPS (S a)
   | ONumCmp a f => ONumCmp (S a) f
   | OAssign o' => OAssign (dealias l o')
   | _ => o
